@@ -55,6 +55,39 @@ Proof.
 Qed.
 Print Assumptions C07_errors_exact.
 
+(** The same when a user future sends the interrupt signal itself, inside a poll of the call
+    ([SelfSignal.run_sig]; known finding F4 concerns the C08 bound only). *)
+Theorem C07_errors_exact_when_a_user_future_sends_the_signal : forall ops G p q rev mt ctl lim st incl imm sg evs o,
+  build (builder_run ops) = BOk G p q ->
+  let cf := mk_cfg G rev ATryForEach mt ctl lim st incl imm true in
+  let s := fst (SelfSignal.run_sig sg cf evs) in
+  result s = Some o ->
+  Permutation (o_errs o) (failed (trace s)) /\
+  (failed (trace s) <> [] -> o_kind o = (if ctl then KBreak else KErr)) /\
+  (failed (trace s) = [] -> o_kind o <> KErr) /\
+  (forall x, In x (starts (trace s)) -> In x (ends (trace s))).
+Proof.
+  intros ops G p q rev mt ctl lim st incl imm sg evs o Hb cf s Hres.
+  destruct (run_sig_invs ops G p q rev ATryForEach mt ctl lim st incl imm sg evs Hb) as (H1 & H2 & Hn). fold cf in H1, H2. fold s in H1, H2.
+  assert (Ha : c_api cf = ATryForEach) by reflexivity.
+  assert (Hc : c_ctl cf = ctl) by reflexivity.
+  clearbody s. clearbody cf.
+  destruct (ret_flags cf s o H2 Hres) as (_ & _ & Ho).
+  assert (Hd : s_err s = None \/ c_api cf <> ATryFold) by (right; rewrite Ha; discriminate).
+  destruct (make_result_fields cf s Hd) as (F1 & F2 & F3 & F4 & F5).
+  assert (Ht : is_tfe (c_api cf) = true) by (rewrite Ha; reflexivity).
+  pose proof (ret_errs_exact cf s o H1 H2 Hres Ht) as Hperm.
+  rewrite Ha in F4, F5. rewrite Hc in F5.
+  subst o. rewrite F4, F5.
+  split; [exact Hperm|]. split; [|split].
+  - intros Hne. destruct (errs s) as [|e l]; [apply Permutation_nil in Hperm; congruence|]. simpl. destruct ctl; reflexivity.
+  - intros He. rewrite He in Hperm. apply Permutation_sym, Permutation_nil in Hperm. rewrite Hperm. simpl.
+    destruct ctl; [destruct (s_rem s =? 0)|]; discriminate.
+  - apply (ret_started_ended cf s _ H1 H2 Hres).
+Qed.
+Print Assumptions C07_errors_exact_when_a_user_future_sends_the_signal.
+
+
 (** try_fold_async*: the error returned is the first (and only) failure, it is the last event of
     the run - no function is invoked after it. *)
 Theorem C07_try_fold_first_error : forall ops G p q rev mt ctl lim st incl imm evs i,
